@@ -294,12 +294,10 @@ def integrate(
         assert (
             nsteps_to_return <= length
         ), "The desired simulation duration is longer than `prod(nested_length)`."
-        if externals:
-            dummy_external = jnp.zeros(
-                (size_difference, externals[example_key].shape[1])
-            )
-            for key in externals.keys():
-                externals[key] = jnp.concatenate([externals[key], dummy_external])
+        for key in externals.keys():
+            # Every input has one column per stimulated (or clamped) site.
+            dummy_external = jnp.zeros((size_difference, externals[key].shape[1]))
+            externals[key] = jnp.concatenate([externals[key], dummy_external])
 
     # Record the initial state.
     init_recs = jnp.asarray(
